@@ -46,7 +46,7 @@ WORKFLOW_P = 'on: push\nfoo: bar\njobs:\n  test:\n    runs-on: ubuntu-latest\n  
 FRAGS = ['label "linux-xyz" is unknown', 'undefined variable "undefined_var"', 'shell name "fish9" is invalid',
          'step ID "dup" duplicates', 'property "foo" is not defined', 'could not parse as YAML',
          'unexpected key "foo" for "workflow" section', 'unexpected key "bar" for "step" section']
-FILE_IDS = {'a': [1, 2, 3, 4, 5], 's': [1, 2, 3, 4, 5], 'b': [1, 2, 3, 4, 5], 'o': [1, 2, 3, 4, 5], 'y': [6], 'p': [7, 8]}
+FILE_IDS = {'a': [1, 2, 3, 4, 5], 'l': [1, 2, 3, 4, 5], 's': [1, 2, 3, 4, 5], 'b': [1, 2, 3, 4, 5], 'o': [1, 2, 3, 4, 5], 'y': [6], 'p': [7, 8]}
 TAIL = 24       # length of the message ending used by the "end" pattern form
 MESSAGES = {}   # id -> full message, filled by baseline() from the real unfiltered output
 NEVER = 'zz no such message (zz)'
@@ -110,6 +110,11 @@ def make_layout(base, cfg, cfgb):
     put(os.path.join(top, 'repo', '.github', 'workflows', 'y.yml'), WORKFLOW_Y)
     put(os.path.join(top, 'repo', '.github', 'workflows', 'p.yml'), WORKFLOW_P)
     put(os.path.join(top, 'other', 'x.yml'), WORKFLOW)
+    # symbolic links (Filter.tla: LinkA, AltTop, FL); the aliases are siblings of their targets
+    for link, target in ((os.path.join(top, 'link'), 'repo'), (os.path.join(base, 'alt'), 'top'),
+                         (os.path.join(top, 'repo', '.github', 'workflows', 'l.yml'), 'a.yml')):
+        if not os.path.islink(link):
+            os.symlink(target, link)
     if cfg is not None:
         put(os.path.join(top, 'repo-b', '.github', 'actionlint.yaml'), render_cfg(cfgb))
         if cfg['k'] != 'none':
@@ -141,15 +146,21 @@ def argv_of(v, base, mode):
 ONELINE = re.compile(r'^(.*?):(\d+):(\d+): (.*) \[([a-z-]+)\]$')
 
 
+def canon(path):
+    """identity of a file: real directory + the name of the file itself (l.yml stays l.yml)"""
+    path = os.path.normpath(path)
+    return os.path.join(os.path.realpath(os.path.dirname(path)), os.path.basename(path))
+
+
 def parse_out(text, mode, cwd):
-    """-> list of (absolute file, line, col, message, kind)"""
+    """-> list of (file identity, line, col, message, kind)"""
     out = []
     if mode == 'oneline':
         for ln in text.splitlines():
             m = ONELINE.match(ln)
             if not m:
                 raise Inconclusive('output line not understood: %r' % ln)
-            out.append((os.path.normpath(os.path.join(cwd, m.group(1))), int(m.group(2)), int(m.group(3)),
+            out.append((canon(os.path.join(cwd, m.group(1))), int(m.group(2)), int(m.group(3)),
                         m.group(4), m.group(5)))
     else:
         if not text.strip():
@@ -159,7 +170,7 @@ def parse_out(text, mode, cwd):
         except ValueError:
             raise Inconclusive('JSON output not understood: %r' % text[:300])
         for d in arr:
-            out.append((os.path.normpath(os.path.join(cwd, d['filepath'])), d['line'], d['column'], d['message'],
+            out.append((canon(os.path.join(cwd, d['filepath'])), d['line'], d['column'], d['message'],
                         d['kind']))
     return out
 
@@ -168,8 +179,9 @@ def execute(binary, v, base, mode):
     cwd = os.path.join(base, *v['cwd'])
     argv = argv_of(v, base, mode)
     try:
+        # $PWD names the cwd the way the shell would (possibly through a symbolic link); os.Getwd trusts it
         p = subprocess.run([binary] + argv, cwd=cwd, stdout=subprocess.PIPE, stderr=subprocess.PIPE, timeout=120,
-                           stdin=subprocess.DEVNULL)
+                           stdin=subprocess.DEVNULL, env=dict(os.environ, PWD=cwd))
     except subprocess.TimeoutExpired:
         raise Inconclusive('actionlint timeout: %r in %s' % (argv, cwd))
     return {'rc': p.returncode, 'stdout': p.stdout.decode('utf-8', 'replace'),
@@ -181,7 +193,7 @@ def baseline(binary, base0):
     any configuration, no -ignore, absolute spelling from top; both output formats must agree.  Also checks that
     the rendered pattern forms have exactly the matching relation Filter.tla defines (Matches)."""
     wf = ['top', 'repo', '.github', 'workflows']
-    files = {'a': wf + ['a.yml'], 's': wf + ['sub', 'b.yml'], 'y': wf + ['y.yml'], 'p': wf + ['p.yml'],
+    files = {'a': wf + ['a.yml'], 'l': wf + ['l.yml'], 's': wf + ['sub', 'b.yml'], 'y': wf + ['y.yml'], 'p': wf + ['p.yml'],
              'b': ['top', 'repo-b', '.github', 'workflows', 'a.yml'], 'o': ['top', 'other', 'x.yml']}
     res = {}
     MESSAGES.clear()
@@ -224,7 +236,7 @@ def baseline(binary, base0):
 def expected_of(v, base, base_diags):
     exp = []
     for f in v['files']:
-        p = os.path.join(base, *f['path'])
+        p = canon(os.path.join(base, *f['path']))
         exp += [(p,) + base_diags[f['name']][i] for i in f['exp']]
     return exp
 
@@ -232,7 +244,7 @@ def expected_of(v, base, base_diags):
 def op_of(v, base, base_diags, field='op'):
     exp = []
     for f in v['files']:
-        p = os.path.join(base, *f['path'])
+        p = canon(os.path.join(base, *f['path']))
         exp += [(p,) + base_diags[f['name']][i] for i in f[field]]
     return exp
 
@@ -253,9 +265,13 @@ def judge(v, r, base, base_diags, mode):
             # naming only: does the output equal what one of the disabled deviations of Filter.tla would print?
             explained = bool(tags) and got == op_of(v, base, base_diags, 'devcwd')
             pre = got == op_of(v, base, base_diags, 'devpre')
+            lnk = got == op_of(v, base, base_diags, 'devlnk')
             cwdl = v['cwdk'] if v['cwdk'] not in ('root', 'rootb') else 'root-of-other-repository'
             globs = [e['glob'] for e in v['cfg']['entries']]
-            if explained and tags == ['paths-cwd']:
+            if lnk and (v['via'] != 'real' or v['cvia'] != 'real'):
+                # the output when the project root is the physical directory but the file keeps its given name
+                site = 'symlink-root:via=%s:cwdvia=%s:cwd=%s' % (v['via'], v['cvia'], v['cwdk'])
+            elif explained and tags == ['paths-cwd']:
                 site = 'paths-config:cwd=%s' % cwdl
             elif explained and tags == ['paths-spelling']:
                 site = 'paths-config:spelling=%s' % v['sp']
@@ -268,13 +284,13 @@ def judge(v, r, base, base_diags, mode):
                 site = 'filter:args=%s:cwd=%s' % (v['argn'], v['cwdk'])
 
             def short(ds):
-                return [(os.path.relpath(d[0], base), d[1], d[2], d[3][:40]) for d in ds]
+                return [(os.path.relpath(d[0], os.path.realpath(base)), d[1], d[2], d[3][:40]) for d in ds]
             text = ('cwd=%s argv=%r config(%s)=%r: stdout has %s, the property demands the unfiltered output minus the '
                     'matched diagnostics = %s' % (os.path.relpath(r['cwd'], base), r['argv'][3:], v['cfg']['src'],
                                                   render_cfg(v['cfg']) if v['cfg']['k'] != 'none' else None,
                                                   short(got), short(exp)))
             return ('output', site, text, {'tags': tags, 'globs': globs, 'explained_by_operational_model': explained,
-                                           'matches_deviation': 'DevCwd' if explained else ('DevPre' if pre else None),
+                                           'matches_deviation': [n for n, b in (('DevCwd', explained), ('DevLnk', lnk), ('DevPre', pre)) if b],
                                            'observed_ids': ids_of(got, v, base, base_diags),
                                            'expected_ids': [f['exp'] for f in v['files']]})
     if r['rc'] not in v['exits']:
@@ -287,7 +303,7 @@ def judge(v, r, base, base_diags, mode):
 def ids_of(got, v, base, base_diags):
     out = []
     for f in v['files']:
-        p = os.path.join(base, *f['path'])
+        p = canon(os.path.join(base, *f['path']))
         inv = {d: k for k, d in base_diags[f['name']].items()}
         out.append([inv.get(d[1:], 0) for d in got if d[0] == p])
     return out
@@ -315,12 +331,15 @@ def run(ck, tier):
             ('Filter_quick2.cfg', 'two paths entries, -config-file, file outside a repository, sibling order'),
             ('Filter_quick3.cfg', 'files whose only diagnostics are the YAML syntax error / parser errors, patterns matching them or not'),
             ('Filter_quick4.cfg', 'pattern lists with an inline-flag pattern next to a wrong-case pattern, both orders, CLI and config'),
-            ('Filter_quick5.cfg', 'pattern lists with anchored forms (^A, B$, ^M$), both orders, CLI and config')]
+            ('Filter_quick5.cfg', 'pattern lists with anchored forms (^A, B$, ^M$), both orders, CLI and config'),
+            ('Filter_quick6.cfg', 'files and cwd named through symbolic links (alias of the repository root, of its parent; '
+                                  'symlinked workflow file) x cwd x spelling')]
     if tier == 'thorough':
         cfgs = [('Filter_thorough.cfg', 'all files x 6 cwd x 3 spellings x CLI patterns x 12 glob forms x repo/-config-file'),
                 ('Filter_pairs.cfg', 'two paths entries'),
                 ('Filter_quick3.cfg', 'files whose only diagnostics are the YAML syntax error / parser errors'),
-                ('Filter_forms.cfg', 'pattern lists with inline-flag / anchored forms in both orders, CLI and config')]
+                ('Filter_forms.cfg', 'pattern lists with inline-flag / anchored forms in both orders, CLI and config'),
+                ('Filter_links.cfg', 'files and cwd named through symbolic links x 6 cwd x 3 spellings x more files and globs')]
     vecs = []
     for cfg, what in cfgs:
         r = vplib.run_tlc('Filter', cfg, dump='vectors', timeout=3000)
@@ -333,17 +352,18 @@ def run(ck, tier):
         vecs += [v for v in vs if v['final']]
     # vacuity guards: the two disabled deviations of the spec must be real deviations (TLC counterexample)
     for cfg, inv, what in (('Filter_dev.cfg', 'DevCwdEqualsDecl', 'glob matched against the displayed (cwd-relative) path'),
-                           ('Filter_dev2.cfg', 'DevPreEqualsDecl', 'string-prefix project lookup')):
+                           ('Filter_dev2.cfg', 'DevPreEqualsDecl', 'string-prefix project lookup'),
+                           ('Filter_dev3.cfg', 'DevLnkEqualsDecl', 'physical project root vs. file named through a symbolic link')):
         rd = vplib.run_tlc('Filter', cfg, timeout=600, workers=1)
         ck.add_tlc('%s: disabled deviation "%s" equals the property (violation expected: vacuity guard)' % (cfg, what), rd)
         if rd.violated != inv:
             raise Inconclusive('vacuity guard: %s is not violated under %s (%r): the universe no longer separates the '
                                'deviation "%s" from the property' % (inv, cfg, rd.violated, what))
-    ck.cov['deviation_guards'] = 'DevCwdEqualsDecl and DevPreEqualsDecl violated in TLC, as required'
+    ck.cov['deviation_guards'] = 'DevCwdEqualsDecl, DevPreEqualsDecl and DevLnkEqualsDecl violated in TLC, as required'
     seen = set()
     uniq = []
     for v in vecs:
-        k = json.dumps({x: v[x] for x in ('cwdk', 'sp', 'argn', 'cli', 'cfg', 'ff')}, sort_keys=True)
+        k = json.dumps({x: v[x] for x in ('cwdk', 'sp', 'argn', 'via', 'cvia', 'cli', 'cfg', 'ff')}, sort_keys=True)
         if k not in seen:
             seen.add(k)
             uniq.append(v)
@@ -399,7 +419,7 @@ def run(ck, tier):
         v2 = judge(v, r2, base, base_diags, mode)
         if v2 is None:
             raise Inconclusive('violation did not reproduce: ' + text)
-        rp = {'kind': kind, 'vector': v, 'mode': mode, 'cwd_kind': v['cwdk'], 'spelling': v['sp'], 'args': v['argn'],
+        rp = {'kind': kind, 'vector': v, 'mode': mode, 'cwd_kind': v['cwdk'], 'spelling': v['sp'], 'via': v['via'], 'cwd_via': v['cvia'], 'args': v['argn'],
               'config_source': v['cfg']['src'], 'config_kind': v['cfg']['k'], 'flag_fault': v['ff'],
               'exit_status': r['rc'], 'accepted_exit_statuses': v['exits']}
         rp.update(extra)
@@ -434,6 +454,8 @@ def run(ck, tier):
                        'glob forms are literal segments, *.yml, * and ** whose doublestar meaning equals GMatch of Filter.tla',
                        'an invalid regular expression given to -ignore may exit with 2 or 3 (the property does not classify it)',
                        'unreadable file = missing file or directory (the checks run as root, permissions do not bite)',
+                       'symbolic links are siblings of their targets (lexical and physical ".." agree); $PWD names the cwd as spelled; '
+                       'a symlinked workflow file is a file of its own name (globs see l.yml, not its target)',
                        '-config-file runs exclude the file outside every repository (no root to be relative to)',
                        'shellcheck / pyflakes integration disabled']
 
